@@ -31,27 +31,34 @@ HEADER = '''From Coq Require Import ZArith List Bool PrimFloat.
 From Pymoto Require Import Base.Num Base.Cmp Base.PyFloat Model.Concat Model.OC.
 Import ListNotations.
 Open Scope float_scope.
-Definition ps_eqb (a b : pstate float) : bool :=
+(* arrays hold floats *)
+Definition F (l : list float) : list pynum := map PFlt l.
+Definition PA (l : list float) : pstate pynum := PArray (F l).
+Definition PS (f : float) : pstate pynum := PScalar (PFlt f).
+Definition pn_eqb (a b : pynum) : bool := PrimFloat.eqb (py_float a) (py_float b).
+Definition pnl_eqb (a b : list pynum) : bool := fl_eqb_list (map py_float a) (map py_float b).
+Definition ps_eqb (a b : pstate pynum) : bool :=
   match a, b with
   | PNone, PNone => true
-  | PScalar x, PScalar y => PrimFloat.eqb x y
-  | PArray l, PArray m => fl_eqb_list l m
+  | PScalar x, PScalar y => pn_eqb x y
+  | PArray l, PArray m => pnl_eqb l m
   | _, _ => false
   end.
-Definition states_eqb (a b : list (pstate float)) : bool :=
+Definition states_eqb (a b : list (pstate pynum)) : bool :=
   Nat.eqb (length a) (length b) && forallb (fun q => ps_eqb (fst q) (snd q)) (combine a b).
-Definition hist_eqb (a b : list (list (pstate float))) : bool :=
+Definition hist_eqb (a b : list (list (pstate pynum))) : bool :=
   Nat.eqb (length a) (length b) && forallb (fun q => states_eqb (fst q) (snd q)) (combine a b).
 Definition bools_eqb (a b : list bool) : bool :=
   Nat.eqb (length a) (length b) && forallb (fun q => Bool.eqb (fst q) (snd q)) (combine a b).
 (* the network as observed: (objective value, sensitivities) at the k-th response/sensitivity call *)
-Definition obs_of (O : list (float * list (pstate float))) (it : nat) (st : list (pstate float)) := nth it O (nan, []).
+Definition obs_of (O : list (float * list (pstate pynum))) (it : nat) (st : list (pstate pynum)) :=
+  let q := nth it O (nan, []) in (PFlt (fst q), snd q).
 (* err: 0 = run completed, 1 = ValueError before the loop (a state is None), 2 = NameError (xnew unbound),
    3 = the run did not return within the time limit (the model runs out of fuel: a float loop that cannot end) *)
-Definition run_ok (pr : @oc_params float) (maxvol : option float) (vars : list (pstate float))
-           (O : list (float * list (pstate float))) (err : Z)
-           (exp_states : list (list (pstate float))) (exp_warns : list bool) (exp_final : list (pstate float)) : bool :=
-  match minimize_oc FloatOOps pr (obs_of O) maxvol 3000 vars with
+Definition run_ok (pr : @oc_params pynum) (maxvol : option pynum) (vars : list (pstate pynum))
+           (O : list (float * list (pstate pynum))) (err : Z)
+           (exp_states : list (list (pstate pynum))) (exp_warns : list bool) (exp_final : list (pstate pynum)) : bool :=
+  match minimize_oc PyOOps pr (obs_of O) maxvol 3000 vars with
   | None => (err =? 1)%Z
   | Some t =>
       match stop t with
@@ -63,12 +70,12 @@ Definition run_ok (pr : @oc_params float) (maxvol : option float) (vars : list (
       end
   end.
 (* the flat design at every response is the concatenation of the signal states (write-back) *)
-Definition flat_ok (pr : @oc_params float) (maxvol : option float) (vars : list (pstate float))
-           (O : list (float * list (pstate float))) : bool :=
-  match minimize_oc FloatOOps pr (obs_of O) maxvol 3000 vars with
+Definition flat_ok (pr : @oc_params pynum) (maxvol : option pynum) (vars : list (pstate pynum))
+           (O : list (float * list (pstate pynum))) : bool :=
+  match minimize_oc PyOOps pr (obs_of O) maxvol 3000 vars with
   | None => true
-  | Some t => forallb (fun d => fl_eqb_list (fst d) (concat (map pflat (snd d)))) (designs t)
-              && fl_eqb_list (final t) (concat (map pflat (final_states t)))
+  | Some t => forallb (fun d => pnl_eqb (fst d) (concat (map pflat (snd d)))) (designs t)
+              && pnl_eqb (final t) (concat (map pflat (final_states t)))
   end.
 '''
 
@@ -105,8 +112,17 @@ def ps(c):
     if c[0] == 'none':
         return 'PNone'
     if c[0] == 'scalar':
-        return f'(PScalar {fhex(c[1])})'
-    return f'(PArray {fl(c[1])})'
+        return f'(PS {fhex(c[1])})'
+    return f'(PA {fl(c[1])})'
+
+
+def pn(v):
+    """Python number -> Coq pynum (ints stay ints, the way minimize_oc receives them)"""
+    if isinstance(v, (bool, np.bool_)):
+        raise TypeError(v)
+    if isinstance(v, (int, np.integer)):
+        return f'(PInt ({int(v)}))'
+    return f'(PFlt {fhex(v)})'
 
 
 def psl(cs):
@@ -214,16 +230,16 @@ def coq_params(prob):
     p = prob['params']
 
     def get(name, proj):
-        return fhex(p[name]) if name in p else f'({proj} default_params)'
+        return pn(p[name]) if name in p else f'({proj} default_params)'
 
     def bnd(name, proj):
         if name not in p:
             return f'({proj} default_params)'
-        return f'(BVector {fl(p[name])})' if isinstance(p[name], list) else f'(BScalar {fhex(p[name])})'
+        return f'(BVector (F {fl(p[name])}))' if isinstance(p[name], list) else f'(BScalar {pn(p[name])})'
     maxit = str(int(p['maxit'])) + '%nat' if 'maxit' in p else '(maxit default_params)'
     pr = (f'(mkParams {get("tolx", "tolx")} {get("tolf", "tolf")} {maxit} {bnd("xmin", "bmin")} {bnd("xmax", "bmax")} '
           f'{get("move", "move")} {get("l1init", "l1init")} {get("l2init", "l2init")} {get("l1l2tol", "l1l2tol")} (warn_eps default_params))')
-    mv = f'(Some {fhex(p["maxvol"])})' if p.get('maxvol') is not None else 'None'
+    mv = f'(Some {pn(p["maxvol"])})' if p.get('maxvol') is not None else 'None'
     return pr, mv
 
 
@@ -619,7 +635,8 @@ def run(ctx):
         obs = []
         for k2 in range(R):
             sens = rec['sens'][k2] if k2 < S else []
-            obs.append(f'({fhex(rec["fs"][k2])}, {psl(sens)})')
+            fk = rec['fs'][k2] if k2 < len(rec['fs']) else float('nan')      # response raised inside the user module
+            obs.append(f'({fhex(fk)}, {psl(sens)})')
         O = '[' + ';\n   '.join(obs) + ']'
         exp_states = '[' + ';\n   '.join(psl(st) for st in rec['states']) + ']'
         exp_warns = '[' + '; '.join(vlib.blit(w) for w in rec['warns']) + ']'
